@@ -164,7 +164,8 @@ def build(variant, quiet=True):
         if os.path.basename(s) == "miniz.c" and variant in ("A", "B"):
             # third-party miniz does deliberate unaligned loads and passes NULL with size 0 to memcpy;
             # benign here, belongs to C01 (not claimed), and would end every archive-producing run
-            flags = flags + ["-fno-sanitize=alignment,nonnull-attribute"]
+            # (shift-base: miniz shifts (year - 1980) into the DOS date field, negative when the clock is before 1980 - garbage date, valid archive)
+            flags = flags + ["-fno-sanitize=alignment,nonnull-attribute,shift-base"]
         key = hashlib.sha256(("lib|%s|%s|%s|%s" % (os.path.basename(s), file_hash(s), hh, " ".join(flags))).encode()).hexdigest()[:32]
         jobs.append(("clang", s, flags, key))
     # the CLI, driven in-process
